@@ -539,6 +539,11 @@ pub fn gen_op(r: &mut Rng, prof: Profile, kind: char, view: &GenView) -> Op {
         "reserve" | "reserve_exact" | "try_reserve" | "try_reserve_exact" => {
             op.n = if (wild || prof == Profile::Zst) && r.chance(1, 4) {
                 r.pick(&HUGE)
+            } else if name.starts_with("try_") && kind != 'Z' && r.chance(1, 8) {
+                // around the largest byte size `Layout::array` accepts (isize::MAX rounded down to the alignment): below it the
+                // arena refuses (`AllocErr`), above it the request is unrepresentable (`CapacityOverflow`); elements are 8..64 bytes
+                let per = r.pick(&[8usize, 16, 24, 32, 64]);
+                ((isize::MAX as usize) / per).saturating_sub(len).saturating_add(r.below(5) as usize).saturating_sub(2)
             } else if name.starts_with("try_") && r.chance(1, 8) {
                 1 << 44 // a valid layout the arena cannot serve: Err(AllocErr), nothing changes
             } else if wild && r.chance(1, 6) {
